@@ -635,6 +635,78 @@ func distribution(rep *vh.Report) {
 	}
 }
 
+// coverage is the second half of the statistical monitor: over the protocol's whole range of
+// extended-square widths (2 .. 1024; share.MaxSquareSize = 512 makes 512 and 1024 legal) and a few
+// widths that are not powers of two, the coordinates NewSamplingResult draws must reach the whole
+// square: every one of the 4 x 4 blocks of rows x columns is hit, with a count within 8 sigma of
+// its share of the area (false-alarm probability per block < 2e-15; P(a given block is never hit
+// in 4096 coordinates) = (15/16)^4096 < 1e-114).  Distinctness, bounds and count always.  Sampled.
+func coverage(rep *vh.Report) {
+	const perDraw, coords = 16, 4096
+	for _, w := range []int{2, 3, 4, 6, 8, 16, 32, 64, 100, 128, 256, 300, 512, 768, 1024} {
+		want := perDraw
+		if want > w*w {
+			want = w * w
+		}
+		g := 4 // blocks per axis
+		if w < 4 {
+			g = w
+		}
+		blk := func(x int) int { return x * g / w }
+		cnt := make([]int, g*g)
+		total, maxRow, maxCol := 0, 0, 0
+		for total < coords {
+			sr := light.NewSamplingResult(w, perDraw)
+			if len(sr.Available) != 0 || len(sr.Remaining) != want {
+				rep.Violate("C03/draw/wrong-sample-count", fmt.Sprintf("NewSamplingResult(%d,%d): %d remaining, %d available; want %d, 0", w, perDraw, len(sr.Remaining), len(sr.Available), want), nil)
+				return
+			}
+			seen := map[shwap.SampleCoords]bool{}
+			for _, co := range sr.Remaining {
+				if co.Row < 0 || co.Col < 0 || co.Row >= w || co.Col >= w {
+					rep.Violate("C03/draw/out-of-square", fmt.Sprintf("NewSamplingResult(%d,%d) drew %v", w, perDraw, co), nil)
+					return
+				}
+				if seen[co] {
+					rep.Violate("C03/draw/duplicate-coordinates", fmt.Sprintf("NewSamplingResult(%d,%d) drew %v twice", w, perDraw, co), nil)
+					return
+				}
+				seen[co] = true
+				cnt[blk(co.Row)*g+blk(co.Col)]++
+				if co.Row > maxRow {
+					maxRow = co.Row
+				}
+				if co.Col > maxCol {
+					maxCol = co.Col
+				}
+				total++
+			}
+		}
+		rep.Count("coverage_widths", 1)
+		rep.Count("coverage_coordinates", int64(total))
+		if want == w*w {
+			continue // the whole square every time
+		}
+		// exact share of every block (block sizes differ when 4 does not divide the width)
+		size := make([]int, g)
+		for x := 0; x < w; x++ {
+			size[blk(x)]++
+		}
+		for b, x := range cnt {
+			p := float64(size[b/g]*size[b%g]) / float64(w*w)
+			mean := float64(total) * p
+			sigma := math.Sqrt(float64(total) * p * (1 - p))
+			if x == 0 || float64(x) < mean-8*sigma || float64(x) > mean+8*sigma {
+				rep.Violate("C03/draw/not-from-the-whole-extended-square",
+					fmt.Sprintf("NewSamplingResult(%d,%d), %d coordinates: the block of rows %d/%d x columns %d/%d of the %dx%d extended square was drawn %d times, expected %.0f +- %.0f (8 sigma bounds); largest row seen %d, largest column seen %d; block counts %v",
+						w, perDraw, total, b/g+1, g, b%g+1, g, w, w, x, mean, sigma, maxRow, maxCol, cnt), map[string]any{"sampled": true})
+				break
+			}
+		}
+		rep.Count("coverage_blocks_checked", int64(len(cnt)))
+	}
+}
+
 // ---------------------------------------------------------------------------- entry
 
 func TestDriver(t *testing.T) {
@@ -703,6 +775,7 @@ func TestDriver(t *testing.T) {
 	}
 	// (3) the statistical monitor of the draw
 	distribution(rep)
+	coverage(rep)
 
 	var tfs []*traceFile
 	for _, tf := range r.files {
